@@ -243,9 +243,10 @@ class FolderObservation(AbstractObservation, discriminator="folder"):
 
         if self.file_system_requires_scan:
             if folder_state.get("uuid") != self._cached_for_folder:
-                # a different folder lives at this path now (deleted and created again): nothing has been scanned on it yet
+                # a different folder lives at this path now (deleted and created again, or an older one restored):
+                # what is known about it is what its own last scan found, not what was seen of its predecessor
                 self._cached_for_folder = folder_state.get("uuid")
-                self.cached_obs = self.default_observation
+                self.cached_obs = {**self.default_observation, "health_status": folder_state["visible_status"]}
             if not folder_state["scanned_this_step"]:
                 health_status = self.cached_obs["health_status"]
             else:
